@@ -23,6 +23,14 @@ import (
 // it; Exec recomputes it and reports it, so a stale value shows as a
 // disagreement).
 // Output: ((st TYPE) (tok TOKEN…) (flag F) (e2e conn NODE FLAG | local FLAG | failed FLAG | unmodelled))
+//
+// Multi-statement packet (namespace support_multi_query, client CLIENT_MULTI_STATEMENTS; the real
+// handleQuery -> doMultiStmts path, every piece on the SAME request context):
+// Line: (rwm (user …) (csl …) (sess …) (slice …) (pieces (TYPE SQL) (TYPE SQL) …))
+// the pieces are what parser.SplitStatementToPieces makes of the packet (= the pieces joined by ";"),
+// TYPE = parser.Preview(piece), both at generation time (Exec re-splits and reports a difference).
+// Output: (multi (p TYPE NODE) …)   NODE master|slave (the node class that executed the piece) | local |
+// failed | unmodelled; the list ends with the first failed / unmodelled piece.
 
 func init() {
 	core.Register(&core.Property{
@@ -31,10 +39,15 @@ func init() {
 			"statements with quotes/comment marks inside literals) x letter case x white space x leading and trailing margins " +
 			"(block/line/hash comments, trace comments, near-miss comment marks) x master-hint placements and near-misses " +
 			"x user kinds x check_select_lock x session state (keep-session, transaction, autocommit) x slice (replicas, fallback); " +
+			"multi-statement packets of two and three pieces (every ordered pair of plain read / locking read / hinted read / read_only probe / write / show databases) " +
+			"through the real handleQuery/doMultiStmts on one request context; " +
 			"plus a malformed stream of unbalanced quotes and comment marks; non-trivial = SELECT/SHOW statement of a user allowed to write",
 		Generate: genC22,
 		Exec:     execC22,
 		Trivial: func(in core.Sexp, out string) bool {
+			if in.Head() == "rwm" { // non-trivial: two pieces or more were followed to a backend
+				return strings.Count(out, " master)")+strings.Count(out, " slave)") < 2
+			}
 			return !(strings.HasPrefix(out, "((st 0)") || strings.HasPrefix(out, "((st 11)")) || in.Nth(1).Nth(1).Atom != "2"
 		},
 		Assumptions: []string{
@@ -119,6 +132,9 @@ func c22OtherWithoutPlan(st int) bool {
 }
 
 func execC22(in core.Sexp) string {
+	if in.Head() == "rwm" {
+		return execC22Multi(in)
+	}
 	if in.Head() != "rw" {
 		return "bad"
 	}
@@ -178,6 +194,110 @@ func execC22(in core.Sexp) string {
 	}
 	vs.ResetConns()
 	return fmt.Sprintf("((st %d) %s (flag %s) %s)", st, c22Tokens(tokens), core.B(flag), e2e)
+}
+
+// execC22Multi runs a multi-statement packet through the real handleQuery.
+func execC22Multi(in core.Sexp) string {
+	user, csl, sess, slice, pcs := in.Nth(1), in.Nth(2), in.Nth(3), in.Nth(4), in.Nth(5)
+	k := c22Key{rwFlag: int(user.Nth(1).Int()), rwSplit: int(user.Nth(2).Int()), csl: csl.Nth(1).Bool(),
+		nSlaves: int(slice.Nth(1).Int()), fallback: slice.Nth(2).Str()}
+	var sqls []string
+	for _, p := range pcs.List[1:] {
+		q := p.Nth(1).Str()
+		if !utf8.ValidString(q) {
+			return "bad"
+		}
+		sqls = append(sqls, q)
+	}
+	if len(sqls) < 2 {
+		return "bad"
+	}
+	packet := strings.Join(sqls, ";")
+	got, err := parser.SplitStatementToPieces(packet)
+	if err != nil || len(got) != len(sqls) {
+		return "(err pieces)"
+	}
+	for i := range got {
+		if got[i] != sqls[i] {
+			return "(err pieces)"
+		}
+	}
+	vs, err := c22Session(k)
+	if err != nil {
+		return "(err config)"
+	}
+	c22Mu.Lock()
+	defer c22Mu.Unlock()
+	configured := vs.CheckSelectLock()
+	switch csl.Nth(2).Atom {
+	case "on":
+		vs.ForceCheckSelectLock(true)
+	case "off":
+		vs.ForceCheckSelectLock(false)
+	}
+	defer vs.ForceCheckSelectLock(configured)
+	keep, inTrans, autocommit := sess.Nth(1).Bool(), sess.Nth(2).Bool(), sess.Nth(3).Bool()
+	vs.SetKeepSession(keep)
+	vs.SetDB("db_a")
+	// which pieces the model follows (as for single statements)
+	unmodelled := make([]bool, len(sqls))
+	sts := make([]int, len(sqls))
+	for i, q := range sqls {
+		st := parser.Preview(q)
+		sts[i] = st
+		switch {
+		case k.rwFlag != models.ReadWrite && c22IsWriteKind(st):
+			unmodelled[i] = true
+		case c22OtherWithoutPlan(st):
+			unmodelled[i] = true
+		case st != parser.StmtShow:
+			vs.ResetConns()
+			isUnshard, _, _ := vs.VerifPreBuildUnshardPlan(st, "db_a", q)
+			unmodelled[i] = !isUnshard
+		}
+	}
+	vs.ResetConns()
+	vs.SetTx(inTrans, autocommit)
+	runErr := vs.VerifHandleQueryMulti(packet)
+	log := vs.ExecLog()
+	vs.ResetConns()
+	vs.SetTx(inTrans, autocommit)
+	vs.SetDB("db_a")
+
+	var sb strings.Builder
+	sb.WriteString("(multi")
+	pos := 0
+	for i, q := range sqls {
+		if unmodelled[i] {
+			sb.WriteString(fmt.Sprintf(" (p %d unmodelled)", sts[i]))
+			break
+		}
+		found := -1
+		for j := pos; j < len(log); j++ {
+			if log[j][1] == q {
+				found = j
+				break
+			}
+		}
+		if found >= 0 {
+			sb.WriteString(fmt.Sprintf(" (p %d %s)", sts[i], log[found][0]))
+			pos = found + 1
+			continue
+		}
+		tokens := parser.Tokenize(q)
+		if sts[i] == parser.StmtShow && len(tokens) == 2 && strings.ToLower(tokens[1]) == "databases" && (runErr == nil || i < len(sqls)-1) {
+			sb.WriteString(fmt.Sprintf(" (p %d local)", sts[i]))
+			continue
+		}
+		if runErr == nil {
+			sb.WriteString(fmt.Sprintf(" (p %d vanished)", sts[i])) // no backend saw it and nothing failed
+		} else {
+			sb.WriteString(fmt.Sprintf(" (p %d failed)", sts[i]))
+		}
+		break
+	}
+	sb.WriteString(")")
+	return sb.String()
 }
 
 // ---- generator ----
@@ -367,7 +487,106 @@ func c22Line(g *core.Gen, rwFlag, rwSplit int, cslCfg bool, force string, keep, 
 		core.L(core.A("stmt"), core.I(int64(parser.Preview(sql))), core.Text(sql)))
 }
 
+// pieces of multi-statement packets, by what the property says about them
+var c22MultiPieces = []struct{ kind, sql string }{
+	{"read", "select * from t where id = 1"},
+	{"read", "select a, b from t"},
+	{"read", "show tables"},
+	{"read", "SELECT 1"},
+	{"lock", "select * from t where id = 1 for update"},
+	{"lock", "select * from t lock in share mode /* trace_id=1 */"},
+	{"lock", "select * from t for share skip locked"},
+	{"hint", "select /*master*/ * from t"},
+	{"hint", "/*master*/ select * from t where id = 2"},
+	{"probe", "select @@read_only"},
+	{"probe", "show variables like 'read_only'"},
+	{"write", "update t set a = 1 where id = 1"},
+	{"write", "insert into t(a) values (1)"},
+	{"write", "delete from t where id = 2"},
+	{"write", "replace into t(a) values ('x;y')"},
+	{"local", "show databases"},
+	{"read", "select * from t where note = 'a;b'"},
+}
+
+func c22MultiLine(g *core.Gen, rwFlag, rwSplit int, cslCfg bool, force string, keep, inTrans, autocommit bool, nSlaves int, fallback string, packet string) (core.Sexp, bool) {
+	pieces, err := parser.SplitStatementToPieces(packet)
+	if err != nil || len(pieces) < 2 || strings.Join(pieces, ";") != packet {
+		return core.Sexp{}, false
+	}
+	ps := []core.Sexp{core.A("pieces")}
+	for _, p := range pieces {
+		ps = append(ps, core.L(core.I(int64(parser.Preview(p))), core.Text(p)))
+	}
+	return core.L(core.A("rwm"),
+		core.L(core.A("user"), core.I(int64(rwFlag)), core.I(int64(rwSplit))),
+		core.L(core.A("csl"), core.B(cslCfg), core.A(force)),
+		core.L(core.A("sess"), core.B(keep), core.B(inTrans), core.B(autocommit)),
+		core.L(core.A("slice"), core.I(int64(nSlaves)), core.Text(fallback)),
+		core.L(ps...)), true
+}
+
+// multi-statement packets: every ordered pair of pieces for the split user in a plain session, and
+// random packets of two or three pieces for every user kind and session state
+func genC22Multi(g *core.Gen) {
+	seps := []string{";", "; ", ";\n", " ;  ", ";\t"}
+	for _, a := range c22MultiPieces {
+		for _, b := range c22MultiPieces {
+			for _, u := range [][2]int{{2, 1}, {2, 0}, {1, 1}} {
+				if g.Tier == "quick" && u[0] != 2 && g.Intn(3) != 0 {
+					continue
+				}
+				if line, ok := c22MultiLine(g, u[0], u[1], true, "none", false, false, true, 1, "", a.sql+core.Pick(g, seps)+b.sql); ok {
+					g.Emit(line, "multi", "multi:"+a.kind+"-then-"+b.kind, fmt.Sprintf("user:%d/%d", u[0], u[1]))
+				}
+			}
+		}
+	}
+	n := g.Scale(600, 8000)
+	for i := 0; i < n; i++ {
+		k := 2 + g.Intn(2)
+		var parts, kinds []string
+		for j := 0; j < k; j++ {
+			p := core.Pick(g, c22MultiPieces)
+			q := p.sql
+			if g.Intn(4) == 0 {
+				q = c22Case(g, q)
+			}
+			if g.Intn(6) == 0 {
+				q = core.Pick(g, []string{"/* c */ ", "-- c\n", " "}) + q
+			}
+			if g.Intn(6) == 0 {
+				q += core.Pick(g, []string{" /* trace_id=1 */", " -- x\n", " # x\n", " "})
+			}
+			parts = append(parts, q)
+			kinds = append(kinds, p.kind)
+		}
+		packet := ""
+		for j, q := range parts {
+			if j > 0 {
+				packet += core.Pick(g, seps)
+			}
+			packet += q
+		}
+		if g.Intn(5) == 0 {
+			packet += ";"
+		}
+		rwFlag := core.Pick(g, []int{2, 2, 2, 1})
+		rwSplit := core.Pick(g, []int{1, 1, 0})
+		keep := g.Intn(5) == 0
+		inTrans := g.Intn(5) == 0
+		autocommit := g.Intn(6) > 0
+		nSlaves := core.Pick(g, []int{1, 1, 1, 2, 0})
+		fallback := core.Pick(g, []string{"", "", "on", "off"})
+		cslCfg := g.Intn(3) > 0
+		force := core.Pick(g, []string{"none", "none", "none", "none", "off", "on"})
+		if line, ok := c22MultiLine(g, rwFlag, rwSplit, cslCfg, force, keep, inTrans, autocommit, nSlaves, fallback, packet); ok {
+			g.Emit(line, "multi", "multi:"+strings.Join(kinds, "-then-"), fmt.Sprintf("user:%d/%d", rwFlag, rwSplit))
+		}
+	}
+}
+
 func genC22(g *core.Gen) {
+	genC22Multi(g)
 	emit := func(sql string, tags []string) {
 		rwFlag := core.Pick(g, []int{2, 2, 2, 1})
 		rwSplit := core.Pick(g, []int{1, 1, 0})
